@@ -33,6 +33,7 @@ CONSTANTS
   KeepHigherIncarnation, \* TRUE: a design variant in which the key in memory is not replaced by one of a lower incarnation
   ReuseUnattested,     \* TRUE: a design variant that keeps an acquired, not yet attested key across polls and goes
                        \* straight to the attestation with it on the next poll (no store, no read-back again)
+  ReadBackFailOpen,    \* TRUE: a design variant whose read-back gives up after failed attempts and reports success
   StateEarly,          \* TRUE: a design variant that stores the reported state before the key step of a poll
   InitScenarios,       \* subset of {"fresh", "haskey", "unreadable", "rotated"}
   InitDocs,            \* status documents the host may start with
@@ -281,7 +282,8 @@ ReadBack(o) ==
         /\ IF fs.final[loc.key] = "key"
            THEN gh' = [gh EXCEPT !.readback = @ \cup {loc.key}] /\ pc' = "Attest" /\ Did("ReadBack", "ok", loc.key)
            ELSE gh' = [gh EXCEPT !.clean = FALSE] /\ pc' = "Sleep" /\ Did("ReadBack", "mismatch", loc.key)
-     \/ /\ o = "fail" /\ FsFaults /\ Fault /\ Faulted /\ pc' = "Sleep" /\ Did("ReadBack", "fail", loc.key)
+     \/ /\ o = "fail" /\ FsFaults /\ Fault /\ Faulted /\ Did("ReadBack", "fail", loc.key)
+        /\ pc' = IF ReadBackFailOpen THEN "Attest" ELSE "Sleep"
   /\ UNCHANGED <<host, fs, loc, mem, policy>>
 
 \* POST /secure-channel/key/{guid}/key-attestation.  ok: the host latches and says so; lost: the host latches
